@@ -35,14 +35,24 @@ abbrev Pieces := List Piece
 
 /-! ## the two writers -/
 
-def natText (n : Nat) : List Char := (toString n).toList
+def digitChar (n : Nat) : Char := Char.ofNat (48 + n % 10)
+
+/-- decimal digits of a number (what `{}` of an unsigned integer writes) -/
+def natText (n : Nat) : List Char :=
+  if h : n < 10 then [digitChar n] else natText (n / 10) ++ [digitChar n]
+termination_by n
+decreasing_by omega
+
+/-- `{}` of a signed integer -/
+def intText (i : Int) : List Char :=
+  if i < 0 then '-' :: natText (-i).toNat else natText i.toNat
 
 /-- `QueryBuilder::value_to_string_common` -/
 def litText (d : Backend) (v : Val) : List Char :=
   match v.v with
   | .null => "NULL".toList
   | .bool b => if b then "TRUE".toList else "FALSE".toList
-  | .int i => (toString i).toList
+  | .int i => intText i
   | .num t => t.toList
   | .str s => Literal.writeStr d s
   | .bytes b => Literal.writeBytes d b
